@@ -86,6 +86,10 @@ inductive Outcome
   | entered | failed | raised
   deriving DecidableEq, Repr
 
+/-- `if event_data.transition.source != self.name: self.retry_counts[k] = 0` -/
+def resetIf (s m src : Nat) (st : FS) : FS :=
+  if src ≠ s then { st with counts := set2 st.counts s m 0 } else st
+
 /-- `CustomState.enter(event_data)` for state `s`, model `m`, `event_data.transition.source = src`,
 along the remaining MRO `l`. -/
 def enterChain (c : Cfg) (s m src : Nat) : List Mixin → FS → FS × Outcome
@@ -99,7 +103,7 @@ def enterChain (c : Cfg) (s m src : Nat) : List Mixin → FS → FS × Outcome
       { st with hooks := set2 st.hooks m (c.args s).hook (some st.fresh), fresh := st.fresh + 1,
                 log := st.log ++ [.created st.fresh] }
   | .retry :: r, st =>
-    let st1 : FS := if src ≠ s then { st with counts := set2 st.counts s m 0 } else st
+    let st1 : FS := resetIf s m src st
     let n := st1.counts s m
     let rt := (c.args s).retries
     if n > rt ∧ rt > 0 then (st1.push (.failure s m (snap c m st1)), .failed)
@@ -207,6 +211,40 @@ def plainLog (l : List Obs) : List ObsE := l.filterMap Obs.plain
 
 def createdIds (l : List Obs) : List Nat :=
   l.filterMap fun | .created i => some i | _ => none
+
+end Feat
+end TM
+
+namespace TM
+namespace Feat
+
+/-! ### vocabulary of the C19 statements -/
+
+/-- `o` is a re-entry of `s` by model `m` from `s` itself (`transition.source == self.name`) -/
+def isSelf (s m : Nat) : Op → Bool
+  | .enter s' m' src => decide (s' = s ∧ m' = m ∧ src = s)
+  | .exit _ _ => false
+
+/-- `o` is an entry of `s` by model `m` from another state -/
+def isForeign (s m : Nat) : Op → Bool
+  | .enter s' m' src => decide (s' = s ∧ m' = m ∧ src ≠ s)
+  | .exit _ _ => false
+
+/-- the undecorated machine: no mixins in the state class -/
+def Cfg.plain (c : Cfg) : Cfg := { c with feats := [] }
+
+/-- a state the features do not single out: no retry limit, and not a rejecting dead end of an Error machine -/
+def FeatureFree (c : Cfg) (s : Nat) : Prop :=
+  (c.args s).retries = 0 ∧ (.error ∈ c.feats → c.hasOut s = true ∨ isAccepted c s = true)
+
+/-- what one model's bookkeeping and recorders show, identities of volatile objects erased -/
+def ViewEq (m : Nat) (a b : FS) : Prop :=
+  (∀ s, a.counts s m = b.counts s m) ∧ (∀ h, (a.hooks m h).isSome = (b.hooks m h).isSome) ∧
+  (plainLog a.log).filter (fun e => e.model = m) = (plainLog b.log).filter (fun e => e.model = m)
+
+/-- invariant behind "fresh": objects are numbered in creation order, nothing bound is from the future -/
+def FreshInv (st : FS) : Prop :=
+  createdIds st.log = List.range st.fresh ∧ ∀ m h id, st.hooks m h = some id → id < st.fresh
 
 end Feat
 end TM
